@@ -43,12 +43,23 @@ def run(ctx):
     if len(classes) < 5:
         raise AnalysisError('accessor classes with a constructor: found %d, floor 5' % len(classes))
     cls_axis = {}
+    trips = {}
     for c in sorted(classes, key=lambda c: c.name):
         init = c.methods['__init__']
         trip = {}
+        trips[c.name] = trip
         for a in ast.walk(init.node):
             if isinstance(a, ast.Assign) and U(a.targets[0]) in ('self.len_object', 'self.keys_object', 'self.values_function'):
                 trip[U(a.targets[0]).split('.')[1]] = a.value
+        if len(trip) != 3:
+            # set through a helper of the class: self.configure(n, keys, fn) with  self.len_object = <param> ..  inside
+            for e in G.callees(init):
+                if e.target is None or e.target.cls is None or e.kind != 'direct':
+                    continue
+                for st_ in ast.walk(e.target.node):
+                    if isinstance(st_, ast.Assign) and U(st_.targets[0]) in ('self.len_object', 'self.keys_object', 'self.values_function') \
+                            and isinstance(st_.value, ast.Name) and st_.value.id in e.binding:
+                        trip.setdefault(U(st_.targets[0]).split('.')[1], e.binding[st_.value.id])
         if len(trip) != 3:
             ctx.fail('C13.1', init, c.name, 'accessor %s does not set len_object, keys_object and values_function' % c.name)
             continue
@@ -82,12 +93,8 @@ def run(ctx):
         elif name in ('trace', 'header'):
             cn = _ctor_name(a.value)
             want = 'get_trace' if name == 'trace' else 'gen_trace_header'
-            c = P.classes.get('accessors.' + (cn or ''))
-            vf = None
-            if c is not None:
-                for s in ast.walk(c.methods['__init__'].node):
-                    if isinstance(s, ast.Assign) and U(s.targets[0]) == 'self.values_function':
-                        vf = U(s.value)
+            vf = trips.get(cn or '', {}).get('values_function')
+            vf = U(vf) if vf is not None else None
             if vf == 'self.' + want:
                 ctx.ok('C13.1', em, a, 'f.%s values come from %s' % (name, want))
             else:
